@@ -117,3 +117,10 @@ CORPUS += [
       expect=[('C02.M', 'NucleotideDataType::all-128-symbols-agree')]),
     T('c02-benign-missing-data-test-from-two-literals', DT, "        if not use_ambiguities and string not in 'ACGTUacgtu':", "        if not use_ambiguities and string not in ('ACGTU' + 'acgtu')[:10]:", benign=True),
 ]
+CORPUS += [
+    Mut('c02-sampling-times-read-off-the-leaves-of-the-tree', 'torchtree/evolution/tree_model.py', '', "        self.sampling_times = torch.tensor(leaf_heights)\n",
+        "        self.sampling_times = torch.tensor([max_date - leaf.date for leaf in self.tree.leaf_node_iter()])\n", mode='text',
+        expect=[('C02.N', 'evolution.tree_model::TimeTreeModel.update_leaf_heights::sampling-times-in-taxon-order')]),
+    Mut('c02-benign-sampling-times-from-a-comprehension-over-the-taxa', 'torchtree/evolution/tree_model.py', '', "        self.sampling_times = torch.tensor(leaf_heights)\n",
+        "        self.sampling_times = torch.tensor([h for h, _ in zip(leaf_heights, self._taxa)], dtype=torch.get_default_dtype())\n", mode='text', benign=True),
+]
